@@ -657,6 +657,58 @@ pub fn c16(rep: &mut Report, n: usize, seed: u64) {
                     out.push('-');
                 }
                 rep.tie(req, out);
+                // the iterator protocol of groups() / named_groups(): provided adaptors an implementation may override
+                // (nth, skip, step_by, last, count, size_hint) after PARTIAL consumption must agree with the plain
+                // sequence of next() calls
+                {
+                    let all: Vec<Option<std::ops::Range<usize>>> = m.groups().collect();
+                    let alln: Vec<(String, Option<std::ops::Range<usize>>)> = m.named_groups().map(|(a, b)| (a.to_string(), b)).collect();
+                    for pre in 0..=all.len().min(3) {
+                        for k in 0..=all.len().min(3) {
+                            let mut it = m.groups();
+                            for _ in 0..pre {
+                                it.next();
+                            }
+                            let got = it.nth(k);
+                            let want = all.get(pre + k).cloned();
+                            let rest: Vec<_> = it.take(all.len() + 2).collect();
+                            let want_rest: Vec<_> = all.iter().skip(pre + k + 1).cloned().collect();
+                            if got != want || rest != want_rest {
+                                rep.violation("impl-vs-spec:C16", format!("groups(): after {} next() calls nth({}) = {:?} then {:?}; the sequence of next() calls gives {:?} then {:?}", pre, k, got, rest, want, want_rest), format!("{} {} {:?}", flags, pat, text));
+                            }
+                            let mut it = m.groups();
+                            for _ in 0..pre {
+                                it.next();
+                            }
+                            let sk: Vec<_> = it.skip(k).step_by(2).take(all.len() + 2).collect();
+                            let want_sk: Vec<_> = all.iter().skip(pre + k).step_by(2).cloned().collect();
+                            if sk != want_sk {
+                                rep.violation("impl-vs-spec:C16", format!("groups(): after {} next() calls skip({}).step_by(2) = {:?}, expected {:?}", pre, k, sk, want_sk), format!("{} {} {:?}", flags, pat, text));
+                            }
+                        }
+                        let mut it = m.groups();
+                        for _ in 0..pre {
+                            it.next();
+                        }
+                        let (lo, hi) = it.size_hint();
+                        let cnt = it.clone().take(all.len() + 2).count();
+                        let last = it.take(all.len() + 2).last();
+                        let want_cnt = all.len().saturating_sub(pre);
+                        if cnt != want_cnt || lo > want_cnt || hi.map(|h| h < want_cnt).unwrap_or(false) || last != all.iter().skip(pre).last().cloned() {
+                            rep.violation("impl-vs-spec:C16", format!("groups(): after {} next() calls count {} size_hint ({}, {:?}) last {:?}; expected count {}", pre, cnt, lo, hi, last, want_cnt), format!("{} {} {:?}", flags, pat, text));
+                        }
+                        let mut itn = m.named_groups();
+                        for _ in 0..pre.min(alln.len()) {
+                            itn.next();
+                        }
+                        let gotn: Vec<(String, Option<std::ops::Range<usize>>)> = itn.skip(1).take(alln.len() + 2).map(|(a, b)| (a.to_string(), b)).collect();
+                        let wantn: Vec<_> = alln.iter().skip(pre.min(alln.len()) + 1).cloned().collect();
+                        if gotn != wantn {
+                            rep.violation("impl-vs-spec:C16", format!("named_groups(): after {} next() calls skip(1) = {:?}, expected {:?}", pre, gotn, wantn), format!("{} {} {:?}", flags, pat, text));
+                        }
+                    }
+                    rep.count("iterator-protocol");
+                }
                 let dup = {
                     let mut v: Vec<&String> = names.iter().filter(|s| !s.is_empty()).collect();
                     let l = v.len();
@@ -728,6 +780,8 @@ fn count_groups_of(re: &Regex) -> usize {
 const TEMPLATE_ATOMS: &[&str] = &[
     "$", "$$", "$0", "$1", "$2", "$9", "$10", "$01", "$65535", "$65536", "$655361", "$99999999999999999999", "${a}", "${b}", "${n1}",
     "${d1}", "${nosuch}", "${", "${a", "${}", "{", "}", "x", "é", "😀", " ", "$x", "$é", "${y}", "${m}", "${first}", "$-", "1", "0", "$$1", "${é}", "${k}",
+    // characters that are numeric / digits in Unicode but not ASCII digits, letters that are not ASCII letters
+    "$²", "$½", "$\u{663}", "$\u{ff11}", "$\u{1d7d7}", "$\u{2167}", "²", "$\u{6f5}1", "${\u{ff11}}", "$1\u{663}", "$\u{ff21}", "${n\u{ff11}}",
 ];
 
 fn random_template(rng: &mut Rng, names: &[String], ngroups: usize) -> String {
@@ -754,9 +808,40 @@ fn matches_token(ms: &[regress::Match]) -> String {
     }
 }
 
+/// `$` followed by EVERY character of the BMP blocks up to U+30FF, the half/full-width forms, the mathematical digits
+/// and a stretch of the supplementary planes (digit and letter tests on a template character must be the ASCII
+/// ones): templates `[$c]` and `$c$1`, against the oracle and the Lean template model.
+fn c17_dollar_sweep(rep: &mut Report) {
+    let re = compile("(b)", "", false).unwrap();
+    let text = "abc";
+    let ms: Vec<_> = re.find_iter(text).collect();
+    let nt = names_token(&re);
+    let base = format!("{} {} {}", nt, ast::bytes_hex(text.as_bytes()), matches_token(&ms));
+    let ranges: [(u32, u32); 5] = [(0, 0x30FF), (0xA620, 0xA62F), (0xFF00, 0xFFFF), (0x1D7C0, 0x1D7FF), (0x10000, 0x100FF)];
+    for (a, b) in ranges {
+        for cp in a..=b {
+            let Some(c) = char::from_u32(cp) else { continue };
+            for tmpl in [format!("[${}]", c), format!("${}$1", c)] {
+                rep.count("dollar-sweep");
+                let got = re.replace_all(text, &tmpl);
+                let want = oracle_replace_all(&re, text, &tmpl, &ms, usize::MAX);
+                if got != want {
+                    rep.violation("impl-vs-oracle", format!("replace_all: expected {:?} got {:?}", want, got), format!("- (b) {:?} {:?}", text, tmpl));
+                }
+                if cp % 16 == 0 || c.is_numeric() {
+                    let tc: Vec<u32> = tmpl.chars().map(|c| c as u32).collect();
+                    rep.tie(format!("replace all {} {}", base, ast::cps_hex(&tc)), ast::bytes_hex(got.as_bytes()));
+                }
+            }
+        }
+    }
+    rep.case("dollar sweep", true);
+}
+
 pub fn c17(rep: &mut Report, n: usize, seed: u64) {
     let mut rng = Rng::new(seed);
     let mut done = 0;
+    c17_dollar_sweep(rep);
     while done < n {
         let Some((flags, pat, re, hays)) = api_regex(&mut rng) else { continue };
         let re_names: Vec<String> = names_of(&re).into_iter().filter(|n| !n.is_empty()).collect();
@@ -877,6 +962,7 @@ pub fn c09(rep: &mut Report, n: usize, seed: u64) {
     let mut rng = Rng::new(seed);
     let mut done = 0;
     c09_periodic(rep, &mut done);
+    crate::scope::deep_attempt_scope(rep, "C09", false);
     crate::scope::dense_candidate_scope(rep, "C09");
     while done < n {
         let Some((flags, pat, re, hays)) = api_regex(&mut rng) else { continue };
